@@ -261,6 +261,10 @@ def run_query(ctx, q, tier):
         res.update(verdict='error', reason='missing environment model: ' + '; '.join(sorted({p['desc'] for p in nobody}))[:600]); return res
     if not wit:
         res.update(verdict='error', reason='harness has no reachability witness'); return res
+    other_fail = [p for p in real_fail if p not in unwinding]
+    if other_fail and len(wit_ok) < len(wit):
+        # an assertion (e.g. a library abort) fails AND cuts the paths to a witness: the failure is the finding, not vacuity
+        res.update(verdict='cex', reason='; '.join(sorted({p['desc'] for p in real_fail}))[:800]); return res
     if len(wit_ok) < len(wit) and unwinding:
         # a failed unwinding assertion cuts every path behind it: the stated loop bound is too small for this harness
         res.update(verdict='error', reason='unwinding bound too small (a loop needs more iterations than stated): ' + '; '.join(sorted({'%s in %s [%s]' % (p['desc'], p['function'], p['id']) for p in unwinding}))[:500]); return res
